@@ -8,6 +8,7 @@ for d in sorted(glob.glob(os.path.join(HERE, 'seeded', '*'))):
         continue
     m = json.load(open(mp))
     first = 'caught as committed' if m['result'].lower().startswith('caught') else 'missed -> check strengthened -> caught'
+    first = m.get('outcome', first)
     rows.append('| %s | %s | %s | %s | `%s` |' % (m['seed'], m['property'], (m.get('summary') or '').replace('|', '/').replace('\n', ' ')[:230],
                                              first, (m.get('detected_as') or '').replace('|', '/')[:150]))
 table = ['| Seed | Property | Change (independent sub-agent, given only the property text) | Outcome | Detected as |', '|---|---|---|---|---|'] + rows
@@ -21,8 +22,10 @@ worktree; I confirmed for each that the patch applies, that its demonstration fa
 without it, and then ran the property's quick check with the patch applied to /repo (and reverted it).  Details,
 including what each seed needs in order to manifest and what was changed in a check that missed it, are in
 seeded/<id>/meta.json.  %d seeds so far: %d caught by the check as it was committed at the time, %d missed at first;
-every miss led to a strengthening of the check (more of the behaviour behind the property), after which the seed
-is caught and the unchanged tree still passes.
+every miss but one led to a strengthening of the check (more of the behaviour behind the property), after which the seed
+is caught and the unchanged tree still passes.  The exception is C06-4 (batch 8: fragment reassembly drops initial_request_n): C06's own
+check feeds unfragmented requests and misses it; C03's reassembly lemma catches it as committed (`reassembled-lost-request-n`);
+making `c03_fragments.c_span_pipeline` an obligation of C06 (as it already is of C01) is the open follow-up.
 
 %s
 
@@ -33,7 +36,7 @@ complete-only), C08 (initial request-n 0 accepted), C09 (responder ignores CANCE
 cache removal - missed at first, see 9.6), C13 (modulo instead of mask; attempt bound; missing availability check), C14
 (lease counter off by one), C15 (>= in the time-out test), C16 (wrong error code), C18 (tag limit 256; MIME limit;
 6-bit id mask), header lemma (2-bit flag mask reduced to 1 bit).
-''' % (len(rows), len([r for r in rows if 'caught as committed' in r]), len([r for r in rows if 'missed' in r]), '\n'.join(table))
+''' % (len(rows), len([r for r in rows if 'caught as committed' in r]), len([r for r in rows if '| missed' in r]), '\n'.join(table))
 s = s[:start] + body
 open(p, 'w').write(s)
 print(len(rows), 'rows')
